@@ -8,3 +8,7 @@ check("C10", "exploration",
       "Reference-model monitor over executions: every ToX call is compared with an independent truncate-and-clamp reference (cross-checked against math/big); exhaustive over all 8/16-bit sources (quick) and all 32-bit sources incl. every float32 bit pattern (thorough); 64-bit sources on boundary neighbourhoods, powers of two, next-up/next-down floats and PRNG values; named types over every kind; monotonicity over sorted batches; panics recovered and reported.",
       "Trusted: Go's builtin conversions for in-range values, math/big. 64-bit sources are sampled, not enumerated. NaN: only no-panic.",
       "reference-model runtime monitor (math/big oracle), exhaustive small domains", "DESIGN.md §4 C10")
+check("C01", "exploration",
+      "Controlled interleavings at filesystem-operation granularity inside a synctest bubble (virtual clock): 2..4 contenders with own decorated VFS over one OS directory, every backend op gated, schedules from random walk, PCT and single-preemption enumeration (bound 2 sampled in thorough). Oracles: overlap of client-boundary hold intervals; online ownership monitor of the lock directory (removal of a live non-stale incarnation by a non-creator). Only the first refuting event per schedule is judged (later ones are consequences). Two genuine defects are recorded as known findings with narrow classes.",
+      "Trusted: Go's synctest bubble semantics, ext4 mkdir atomicity, the re-stamper's emulation of a filesystem clock equal to the process clock. Says nothing about NFS-like filesystems, clock skew between hosts or real scheduling latency (gate delay capped at 5 ms virtual). Held on the K schedules explored.",
+      "runtime monitor over scheduler-controlled interleavings (synctest bubble + afero gate), history/ownership oracles", "DESIGN.md §4 C01, §2.3")
